@@ -1253,7 +1253,11 @@ def oracle_scrape(ctx, rcase, records, rows, view, co, pre, t_real):
         from common import h2f
         lls = {c["id"]: h2f(rows[c["id"]]["max_ll"]) for c in cells if c["id"] in rows and rows[c["id"]]["max_ll"] is not None}
         if lls and len(lls) == len(cells):
-            ctx.hit("grid-best:" + ("max-is-0.0" if max(lls.values()) == 0.0 and min(lls.values()) < 0.0 else "other"))
+            zero_max = max(lls.values()) == 0.0 and min(lls.values()) < 0.0
+            ctx.hit("grid-best:" + ("max-is-0.0" if zero_max else "other"))
+            if zero_max and os.environ.get("C11_SAVE_ZERO_MAX") and not os.path.exists(os.environ["C11_SAVE_ZERO_MAX"]):
+                json.dump({"program": rcase.get("program") or rcase, "note": "grid search whose best cell has max_log_likelihood exactly 0.0"},
+                          open(os.environ["C11_SAVE_ZERO_MAX"], "w"), indent=1, default=str)
             if v["best"] not in lls or lls[v["best"]] != max(lls.values()):
                 ctx.fail("C11-grid-best", "best_fit is not a cell of highest likelihood", rcase, [v["best"], lls])
         if p["complete"] != rec["complete"]:
